@@ -78,6 +78,16 @@ pub fn live_blocks() -> usize {
 pub fn counters() -> (u64, u64, u64, u64, u64, u64) {
     with(|s| (s.builds, s.relocations, s.expands, s.resizes, s.drops, s.scans))
 }
+pub fn reset_counters() {
+    with(|s| {
+        s.builds = 0;
+        s.relocations = 0;
+        s.expands = 0;
+        s.resizes = 0;
+        s.drops = 0;
+        s.scans = 0;
+    });
+}
 pub fn take_build_layouts() -> Vec<Layout> {
     with(|s| std::mem::take(&mut s.build_layouts))
 }
